@@ -13,6 +13,7 @@
 (*       cursor, mod-hash slot, error flag of Add/Remove, eligible ring owners): reported as an     *)
 (*       observation only, the statement does not demand it.                                        *)
 EXTENDS Selector, Json, TLC
+CONSTANT RFull
 Scripts == ndJsonDeserialize("scripts.ndjson")
 Obs == ndJsonDeserialize("obs.ndjson")
 WRecs == ndJsonDeserialize("wrecs.ndjson")
@@ -30,6 +31,10 @@ Periodic(sel, n) == \A j \in 1..(Len(sel) - n) : sel[j] = sel[j + n]
 WindowCounts(sel, n, m, cnt) == \A i \in 1..Len(m) : CountIn(SubSeq(sel, 1, n), m[i].h) = cnt[i]
 
 \* ---- level P: the property
+\* weighted round robin: every full cycle holds endpoint i exactly cnt[i] times (cnt, L passed as values)
+PWeightedL(sel, m, cnt, L) == IF Len(sel) < L THEN "window-too-short"
+                              ELSE IF Periodic(sel, L) /\ WindowCounts(sel, L, m, cnt) THEN "ok" ELSE "weighted-cycle"
+PWeighted(sel, m, cnt) == PWeightedL(sel, m, cnt, SumSeq(cnt))
 PClass(s, wt, m, o) ==
   LET sel == o.sel
       none == EligibleIdx(s, wt, m) = {}
@@ -43,17 +48,13 @@ PClass(s, wt, m, o) ==
           THEN (IF Len(sel) < Len(m) THEN "window-too-short"
                 ELSE IF Periodic(sel, Len(m)) /\ WindowCounts(sel, Len(m), m, [i \in 1..Len(m) |-> 1]) THEN "ok" ELSE "rotation")
      ELSE IF s = "rr" /\ UsesCycle(s, wt, m)
-          THEN LET W == WeightsOf(m)
-                   L == FormulaLen(W)
-               IN IF Len(sel) < L THEN "window-too-short"
-                  ELSE IF Periodic(sel, L) /\ WindowCounts(sel, L, m, [i \in 1..Len(m) |-> FormulaCount(W, i)]) THEN "ok" ELSE "weighted-cycle"
+          THEN PWeighted(sel, m, [i \in 1..Len(m) |-> FormulaCount(WeightsOf(m), i)])
      ELSE "ok"
 
 \* ---- level R: refinement of the specification's choices
-RClass(s, wt, m, mPrev, op, o) ==
+\* (the cycle is passed as an argument so that it is computed once per observation)
+RClassC(s, wt, m, mPrev, op, o, cy, per) ==
   LET sel == o.sel
-      cy == CycleOf(s, wt, m)
-      per == PeriodOf(s, wt, m, cy)
   IN IF o.e # ExpectErr(mPrev, op) THEN "op-error-flag"
      ELSE IF s = "rr" /\ per > 0 /\ ~(\E c \in 0..(per - 1) : \A j \in 1..Len(sel) : sel[j] \in SelectSet(s, wt, m, cy, c + j - 1, 0))
           THEN "rotation-order"
@@ -64,6 +65,11 @@ RClass(s, wt, m, mPrev, op, o) ==
      ELSE IF s = "conhash" /\ ~(\A j \in 1..Len(sel) : sel[j] \in SelectSet(s, wt, m, cy, 0, 0))
           THEN "conhash-ineligible"
      ELSE "ok"
+RClassB(s, wt, m, mPrev, op, o, cy) == RClassC(s, wt, m, mPrev, op, o, cy, PeriodOf(s, wt, m, cy))
+\* RFull = FALSE skips the comparisons that need the reference cycle itself (the costly part of the oracle)
+RClass(s, wt, m, mPrev, op, o) ==
+  IF ~RFull /\ UsesCycle(s, wt, m) THEN (IF o.e # ExpectErr(mPrev, op) THEN "op-error-flag" ELSE "ok")
+  ELSE RClassB(s, wt, m, mPrev, op, o, CycleOf(s, wt, m))
 
 \* walk one record: <<step of the first P failure or 0, class, step of the first R mismatch or 0, class>>
 RECURSIVE Walk(_, _, _, _, _, _, _)
